@@ -392,6 +392,47 @@ var corpus = []prog{
 		c.Close()
 		fin.Recv()
 	}, ""},
+	{"rwmutex-readers-and-writer", func() {
+		var m vs.RWMutex
+		x := 0
+		fin := vs.NewChan[int](3)
+		for i := 0; i < 2; i++ {
+			vs.Go(func() { m.RLock(); note("read", x); m.RUnlock(); fin.Send(1) })
+		}
+		vs.Go(func() { m.Lock(); x = 7; m.Unlock(); fin.Send(1) })
+		fin.Recv()
+		fin.Recv()
+		fin.Recv()
+	}, "no-deadlock"},
+	{"once-two-callers", func() {
+		var o vs.Once
+		n := 0
+		fin := vs.NewChan[int](2)
+		for i := 0; i < 2; i++ {
+			i := i
+			vs.Go(func() { o.Do(func() { n++; note("init by", i) }); note("sees", n); fin.Send(1) })
+		}
+		fin.Recv()
+		fin.Recv()
+	}, "no-deadlock"},
+	{"atomic-cas-claim", func() {
+		var flag int32
+		var cnt vs.AtomicInt64
+		fin := vs.NewChan[int](2)
+		for i := 0; i < 2; i++ {
+			i := i
+			vs.Go(func() {
+				if vs.AtomicCAS(&flag, 0, 1) {
+					note("claimed by", i)
+				}
+				cnt.Add(1)
+				fin.Send(1)
+			})
+		}
+		fin.Recv()
+		fin.Recv()
+		note("count", cnt.Load(), vs.AtomicLoad(&flag))
+	}, "no-deadlock"},
 	{"lost-wakeup-deadlock", func() {
 		// receiver waits for a message that is only sent if a flag was seen: deadlock in some schedules
 		c := vs.NewChan[int](0)
